@@ -60,6 +60,16 @@ theorem compare_eq_plain [NumOrd R] (p : Prog R) (hd : DivOK p) (i : Nat) (env :
   · simp only [Dual.partialCmp, ds, ha, hb]
   · simp only [Dual.display, ds, ha]
 
+/-- **`Trace::derivative(function, x)` returns the derivative.**  When `function` is the program
+    as a function of the trace put in for input `i` (the other inputs constants) and `x` the
+    value of input `i`, the helper returns `∂(result k)/∂(input i)`. -/
+theorem derivative_helper_eq_grad (p : Prog R) (hd : DivOK p) (i k : Nat) (env : Nat → R) :
+    Dual.derivativeOf (fun t => getDual (Prog.execDualWith i t env p) k) (env i)
+      = (Prog.grad env p i).getD k 0 := by
+  unfold Dual.derivativeOf Prog.execDualWith
+  simp only [execDualWith_mkVar]
+  exact ((dual_eq_grad p hd i env).2 k).2
+
 /-- **Seeding each input in turn reproduces the gradient reverse mode reports.**  For the same
     program run with records on a tape: a result with a tape has `derivatives()` whose entry at
     the position of every input `i` equals the derivative component of the trace of the run
